@@ -331,6 +331,177 @@ fn op_project(case: &Value) -> Value {
     json!({"ok": diags.is_empty(), "diags": diags, "nsources": n})
 }
 
+/// The facts the remaining semantic rules look at, in the order of the library's own traversal (one string per fact,
+/// fields separated by ','; names as hex of their spelling; positions are span starts):
+///   EA,name,target,tpos   enumeration declared as an alias        EV,name,v1:v2:..   enumeration with values
+///   EN,kind,name / EX     a function (F), function block (B) or program (P) is entered / left
+///   VA,name|-,class,qualifier,initializer kind,type|-,has initial value,pos     a variable declaration
+///   ED,name               an edge-detecting input                 CA,instance,pos,args   a function block invocation
+///   EI,type,tpos,value|-,vpos    an enumerated initial value      FI,type,tpos   a function block instance type
+///   RS,task:task..,prog:prog..   a resource: its task names and, per program, '-' or task@pos
+struct Facts {
+    out: Vec<String>,
+}
+
+fn hx(s: &str) -> String {
+    hex_encode(s.as_bytes())
+}
+
+impl Visitor<()> for Facts {
+    type Value = ();
+
+    fn visit_enumeration_declaration(&mut self, node: &EnumerationDeclaration) -> Result<(), ()> {
+        match &node.spec_init.spec {
+            EnumeratedSpecificationKind::TypeName(n) => {
+                self.out.push(format!("EA,{},{},{}", hx(&node.type_name.name.original), hx(&n.name.original), n.name.span.start))
+            }
+            EnumeratedSpecificationKind::Values(vs) => {
+                let l: Vec<String> = vs.values.iter().map(|v| hx(&v.value.original)).collect();
+                self.out.push(format!("EV,{},{}", hx(&node.type_name.name.original), l.join(":")))
+            }
+        }
+        node.recurse_visit(self)
+    }
+    fn visit_function_declaration(&mut self, node: &FunctionDeclaration) -> Result<(), ()> {
+        self.out.push(format!("EN,F,{}", hx(&node.name.original)));
+        let r = node.recurse_visit(self);
+        self.out.push("EX".to_string());
+        r
+    }
+    fn visit_function_block_declaration(&mut self, node: &FunctionBlockDeclaration) -> Result<(), ()> {
+        self.out.push(format!("EN,B,{}", hx(&node.name.original)));
+        let r = node.recurse_visit(self);
+        self.out.push("EX".to_string());
+        r
+    }
+    fn visit_program_declaration(&mut self, node: &ProgramDeclaration) -> Result<(), ()> {
+        self.out.push(format!("EN,P,{}", hx(&node.name.original)));
+        let r = node.recurse_visit(self);
+        self.out.push("EX".to_string());
+        r
+    }
+    fn visit_var_decl(&mut self, node: &VarDecl) -> Result<(), ()> {
+        use ironplc_dsl::core::Located;
+        let name = match node.identifier.symbolic_id() {
+            Some(id) => hx(&id.original),
+            None => "-".to_string(),
+        };
+        let class = match node.var_type {
+            VariableType::Var => "var",
+            VariableType::VarTemp => "temp",
+            VariableType::Input => "input",
+            VariableType::Output => "output",
+            VariableType::InOut => "inout",
+            VariableType::External => "external",
+            VariableType::Global => "global",
+            VariableType::Access => "access",
+        };
+        let qual = match node.qualifier {
+            DeclarationQualifier::Unspecified => "unspec",
+            DeclarationQualifier::Constant => "const",
+            DeclarationQualifier::Retain => "retain",
+            DeclarationQualifier::NonRetain => "nonretain",
+        };
+        let (kind, ty, has) = match &node.initializer {
+            InitialValueAssignmentKind::None(_) => ("none", "-".to_string(), false),
+            InitialValueAssignmentKind::Simple(si) => ("simple", hx(&si.type_name.name.original), si.initial_value.is_some()),
+            InitialValueAssignmentKind::String(st) => ("string", "-".to_string(), st.initial_value.is_some()),
+            InitialValueAssignmentKind::EnumeratedValues(ev) => ("enumvalues", "-".to_string(), ev.initial_value.is_some()),
+            InitialValueAssignmentKind::EnumeratedType(et) => ("enumtype", hx(&et.type_name.name.original), et.initial_value.is_some()),
+            InitialValueAssignmentKind::FunctionBlock(fb) => ("fb", hx(&fb.type_name.name.original), false),
+            InitialValueAssignmentKind::Subrange(_) => ("subrange", "-".to_string(), false),
+            InitialValueAssignmentKind::Structure(_) => ("struct", "-".to_string(), false),
+            InitialValueAssignmentKind::Array(_) => ("array", "-".to_string(), false),
+            InitialValueAssignmentKind::LateResolvedType(t) => ("late", hx(&t.name.original), false),
+        };
+        self.out.push(format!("VA,{},{},{},{},{},{},{}", name, class, qual, kind, ty, if has { 1 } else { 0 }, node.span().start));
+        node.recurse_visit(self)
+    }
+    fn visit_edge_var_decl(&mut self, node: &EdgeVarDecl) -> Result<(), ()> {
+        self.out.push(format!("ED,{}", hx(&node.identifier.original)));
+        node.recurse_visit(self)
+    }
+    fn visit_fb_call(&mut self, node: &ironplc_dsl::textual::FbCall) -> Result<(), ()> {
+        use ironplc_dsl::core::Located;
+        use ironplc_dsl::textual::ParamAssignmentKind;
+        let args: Vec<String> = node
+            .params
+            .iter()
+            .map(|p| match p {
+                ParamAssignmentKind::NamedInput(n) => format!("N{}", hx(&n.name.original)),
+                ParamAssignmentKind::PositionalInput(_) => "P".to_string(),
+                ParamAssignmentKind::Output(o) => format!("O{}", hx(&o.src.original)),
+            })
+            .collect();
+        self.out.push(format!("CA,{},{},{}", hx(&node.var_name.original), node.span().start, args.join(":")));
+        Ok(())
+    }
+    fn visit_enumerated_initial_value_assignment(&mut self, node: &EnumeratedInitialValueAssignment) -> Result<(), ()> {
+        use ironplc_dsl::core::Located;
+        let (v, vpos) = match &node.initial_value {
+            Some(v) => (hx(&v.value.original), v.span().start),
+            None => ("-".to_string(), 0),
+        };
+        self.out.push(format!("EI,{},{},{},{}", hx(&node.type_name.name.original), node.type_name.name.span.start, v, vpos));
+        node.recurse_visit(self)
+    }
+    fn visit_function_block_initial_value_assignment(&mut self, node: &FunctionBlockInitialValueAssignment) -> Result<(), ()> {
+        self.out.push(format!("FI,{},{}", hx(&node.type_name.name.original), node.type_name.name.span.start));
+        node.recurse_visit(self)
+    }
+    fn visit_resource_declaration(&mut self, node: &ironplc_dsl::configuration::ResourceDeclaration) -> Result<(), ()> {
+        let tasks: Vec<String> = node.tasks.iter().map(|t| hx(&t.name.original)).collect();
+        let progs: Vec<String> = node
+            .programs
+            .iter()
+            .map(|p| match &p.task_name {
+                Some(t) => format!("{}@{}", hx(&t.original), t.span.start),
+                None => "-".to_string(),
+            })
+            .collect();
+        self.out.push(format!("RS,{},{}", tasks.join(":"), progs.join(":")));
+        node.recurse_visit(self)
+    }
+}
+
+const FACT_RULES: [&str; 8] = [
+    "rule_var_decl_const_initialized",
+    "rule_var_decl_const_not_fb",
+    "rule_var_decl_global_const_requires_external_const",
+    "rule_program_task_definition_exists",
+    "rule_use_declared_enumerated_value",
+    "rule_function_block_invocation",
+    "rule_unsupported_stdlib_type",
+    "rule_enumeration_values_unique",
+];
+
+/// parse every file, resolve, emit the facts of the resolved library and run each fact-shaped rule on it by itself
+fn op_facts(case: &Value) -> Value {
+    let (libs, errs) = parse_files(case);
+    let refs: Vec<&Library> = libs.iter().map(|x| &x.1).collect();
+    match ironplc_analyzer::verif_hooks::resolve_types(&refs) {
+        Ok(lib) => {
+            let mut v = Facts { out: vec![] };
+            let _ = v.walk(&lib);
+            let mut rules = serde_json::Map::new();
+            for r in FACT_RULES.iter() {
+                if let Some(res) = ironplc_analyzer::verif_hooks::rule(r, &lib) {
+                    let ds: Vec<Value> = match res {
+                        Ok(_) => vec![],
+                        Err(ds) => ds.iter().map(diag_json).collect(),
+                    };
+                    rules.insert(r.to_string(), Value::Array(ds));
+                }
+            }
+            json!({"parse_errs": errs, "facts": v.out, "rules": rules})
+        }
+        Err(ds) => {
+            let ds: Vec<Value> = ds.iter().map(diag_json).collect();
+            json!({"parse_errs": errs, "xform_diags": ds})
+        }
+    }
+}
+
 fn op_roundtrip(case: &Value) -> Value {
     let text = text_of(case, "text");
     let fid = FileId::from_string("f.st");
@@ -498,6 +669,7 @@ fn run_case(case: &Value) -> Value {
         "analyze" => op_analyze(case),
         "project" => op_project(case),
         "events" => op_events(case),
+        "facts" => op_facts(case),
         "roundtrip" => op_roundtrip(case),
         "render" => op_render(case),
         "respell" => op_respell(case),
